@@ -19,6 +19,7 @@ package store
 //@   requires mcshape(s) && !s.config.SkipHashVerification
 //@   requires holds_token: s.memCache.held >= size
 //@   modifies s.memCache.held, map s.memCache.entries, s.clk.now, every list.Element.list, every list.List.len, every list.List.hi
+//@   assert metainfo_describes_entry: at BlobMemoryCache.Add#0 :: entry.MetaInfo != nil && entry.Name == name && entry.MetaInfo.info.Name == name && entry.MetaInfo.info.Length == len(entry.Data) && len(entry.MetaInfo.info.PieceSums) == npieces(len(entry.Data), pieceLength)
 //@   ensures consumed: result == nil ==> s.memCache.held == old(s.memCache.held) - size
 //@   ensures untouched_on_error: result != nil ==> s.memCache.held == old(s.memCache.held)
 
@@ -41,6 +42,12 @@ package store
 // (BlobMemoryCache.Add, whose precondition `verified` is discharged in addToMemoryCache). Both are
 // reached only with content that hashes to the name. Readers serve a memory entry only through
 // BlobMemoryCache.Get, whose lock invariant says every stored entry hashes to its key.
+
+// The metainfo stored with a memory entry is generated from exactly the entry's bytes and name.
+//@ func CAStore.generateMetadataFromBytes
+//@   requires len(data) <= 4611686018427387904
+//@   ensures describes: result1 == nil ==> result0 != nil && result0.info.Length == len(data) && result0.info.Name == name && result0.info.PieceLength == pieceLength && len(result0.info.PieceSums) == npieces(len(data), pieceLength)
+//@   ensures sums: result1 == nil ==> (forall k int :: 0 <= k && k < len(result0.info.PieceSums) ==> result0.info.PieceSums[k] == crcseg(base(data), offset(data) + k * pieceLength, plen(len(data), pieceLength, k)))
 
 // The upload file is renamed into the cache only after the bytes read from it were verified
 // against cacheName.
